@@ -7,7 +7,9 @@ import (
 	"context"
 	"errors"
 	"fmt"
+	"io"
 	"math/rand/v2"
+	"os"
 	"slices"
 	"strings"
 	"sync"
@@ -466,7 +468,7 @@ func (p *Probe) Run(ctx context.Context, r controller.Runtime, _ *zap.Logger) er
 
 		switch fault {
 		case "err":
-			return fmt.Errorf("verif: injected failure of %s on wake %d", p.cfg.Name, n)
+			return InjErr(n, fmt.Sprintf("verif: injected failure of %s on wake %d", p.cfg.Name, n))
 		case "panic":
 			panic(fmt.Sprintf("verif: injected panic of %s on wake %d", p.cfg.Name, n))
 		}
@@ -569,7 +571,7 @@ func (p *QProbe) hook(ctx context.Context, _ *zap.Logger, _ controller.QRuntime)
 
 	switch outcome {
 	case "err":
-		return errors.New("verif: injected run hook failure")
+		return InjErr(n, "verif: injected run hook failure")
 	case "panic":
 		panic("verif: injected run hook panic")
 	}
@@ -641,7 +643,7 @@ func (p *QProbe) Reconcile(ctx context.Context, _ *zap.Logger, r controller.QRun
 
 	switch {
 	case outcome == "err":
-		return fmt.Errorf("verif: injected reconcile failure %s #%d", k.ID, n)
+		return InjErr(n, fmt.Sprintf("verif: injected reconcile failure %s #%d", k.ID, n))
 	case outcome == "panic":
 		panic(fmt.Sprintf("verif: injected reconcile panic %s #%d", k.ID, n))
 	case outcome == "skip":
@@ -703,7 +705,7 @@ func (p *QProbe) MapInput(ctx context.Context, _ *zap.Logger, r controller.QRunt
 
 	switch fault {
 	case "err":
-		return nil, fmt.Errorf("verif: injected MapInput failure #%d", n)
+		return nil, InjErr(n, fmt.Sprintf("verif: injected MapInput failure #%d", n))
 	case "panic":
 		panic(fmt.Sprintf("verif: injected MapInput panic #%d", n))
 	}
@@ -742,4 +744,28 @@ func mapsClone[K comparable, V any](m map[K]V) map[K]V {
 	}
 
 	return out
+}
+
+// deadlineErr is an error of the net.Error kind (an I/O call of the controller timed out).
+type deadlineErr struct{ msg string }
+
+func (e deadlineErr) Error() string   { return e.msg }
+func (e deadlineErr) Timeout() bool   { return true }
+func (e deadlineErr) Temporary() bool { return true }
+
+// InjErr builds the n-th injected failure. The runtime is alive when these are returned, so each of them is a failure of the controller
+// and nothing else - whatever it wraps: the expired deadline of a call the controller made with its own, shorter time limit, an
+// end-of-stream, a timeout of the net.Error kind, several errors joined. (Errors wrapping context.Canceled are not injected: the code
+// under test reads them as "shutting down", and the statement does not say how a controller's own cancelled sub-context is to be read.)
+func InjErr(n int, msg string) error {
+	switch n % 5 {
+	case 1:
+		return fmt.Errorf("%s: %w", msg, context.DeadlineExceeded)
+	case 2:
+		return fmt.Errorf("%s: %w", msg, io.EOF)
+	case 3:
+		return errors.Join(errors.New(msg), deadlineErr{"i/o timeout"}, os.ErrDeadlineExceeded)
+	default:
+		return errors.New(msg)
+	}
 }
